@@ -81,6 +81,9 @@ LIB_FLAVOURS = {
     "fiber_asan": (["-DYACLIB_CXX_STANDARD=20", "-DYACLIB_FLAGS=CORO;ASAN;UBSAN", "-DYACLIB_FAULT=FIBER"], "-O1 -g"),
     "thread": (["-DYACLIB_CXX_STANDARD=20", "-DYACLIB_FLAGS=CORO", "-DYACLIB_FAULT=THREAD"], "-O1 -g"),
     "plain": (["-DYACLIB_CXX_STANDARD=20", "-DYACLIB_FLAGS=CORO"], "-O1 -g"),
+    # the two other coroutine configurations of cmake/yaclib_flags.cmake
+    "plain_nofst": (["-DYACLIB_CXX_STANDARD=20", "-DYACLIB_FLAGS=CORO;DISABLE_FINAL_SUSPEND_TRANSFER"], "-O1 -g"),
+    "plain_nost": (["-DYACLIB_CXX_STANDARD=20", "-DYACLIB_FLAGS=CORO;DISABLE_SYMMETRIC_TRANSFER"], "-O1 -g"),
 }
 
 
